@@ -38,6 +38,14 @@ const EXTRA: [&str; 3] = ["in 0.0254 m", "n 5 m", "junk {\n  ms const min 3 m\n 
 const QP: [&str; 5] = ["", "m", "milli", "k", "mi"];
 const QU: [&str; 10] = ["s", "second", "m", "meter", "min", "in", "ms", "ks", "mins", "n"];
 
+/// Second-load family: a small database, then further definition files that define some of its
+/// names again (as the CLI's currency.units or a user's extra file can). What a name denotes
+/// afterwards - and what its canonical name denotes - is judged on the final registry.
+const BASE2: &str = "s !second\nm !meter\nmilli- 1e-3\nkilo- 1e3\nk-- kilo\nfoot 0.3048 m\nyard 3 foot\nstep foot\npace 2 step\nklick kilo m\n";
+const REDEF: [&str; 7] = ["step yard", "foot 0.5 m", "step 2 m", "yard foot", "kilo- 1e2", "k-- milli", "klick yard"];
+const QP2: [&str; 4] = ["", "k", "kilo", "milli"];
+const QU2: [&str; 8] = ["s", "m", "foot", "yard", "step", "pace", "klick", "meter"];
+
 struct Loaded {
     a: Context,
     b: Context,
@@ -65,8 +73,75 @@ impl C07 {
         let mut fams = Fams::default();
         fams.add("bundled database: config x prefix x name x plural", vec![2, prefixes.len() as u64, names.len() as u64, 2]);
         fams.add("all sub-databases of the colliding pool", vec![1 << POOL.len()]);
+        fams.add("second load redefining names: every subset of 7 redefinitions as one extra file", vec![1 << REDEF.len()]);
+        fams.add("third load: every ordered pair of redefinitions as two extra files", vec![(REDEF.len() * REDEF.len()) as u64]);
         C07 { fams, names, prefixes, plain: Lazy::new(), cur: Lazy::new() }
     }
+}
+
+impl C07 {
+    fn loads(f: usize, i: u64) -> Vec<String> {
+        if f == 2 {
+            let mut t = String::new();
+            for k in 0..REDEF.len() {
+                if i >> k & 1 == 1 {
+                    t.push_str(REDEF[k]);
+                    t.push('\n');
+                }
+            }
+            vec![t]
+        } else {
+            let n = REDEF.len() as u64;
+            vec![format!("{}\n", REDEF[(i / n) as usize]), format!("{}\n", REDEF[(i % n) as usize])]
+        }
+    }
+}
+
+/// History analysis for the reload families (texts only, no rink code): does `name`, read as
+/// [prefix]stem[s], have an alias chain stem -> y -> ... in the *latest* definitions in which some
+/// target was defined again by a later load than the alias pointing at it was evaluated?  rink
+/// evaluates definitions eagerly, so such an alias keeps the value of the old target.
+fn stale_alias(loads: &[String], name: &str) -> bool {
+    let mut latest: std::collections::BTreeMap<String, (usize, String)> = Default::default();
+    let mut texts = vec![BASE2.to_string()];
+    texts.extend(loads.iter().cloned());
+    for (i, t) in texts.iter().enumerate() {
+        for line in t.lines() {
+            if let Some((n, rhs)) = line.trim().split_once(' ') {
+                if !n.ends_with('-') {
+                    latest.insert(n.to_string(), (i, rhs.trim().to_string()));
+                }
+            }
+        }
+    }
+    let mut stems = vec![];
+    for p in QP2 {
+        if let Some(rest) = name.strip_prefix(p) {
+            stems.push(rest.to_string());
+            if let Some(r) = rest.strip_suffix('s') {
+                stems.push(r.to_string());
+            }
+        }
+    }
+    for stem in stems {
+        let mut x = stem;
+        for _ in 0..10 {
+            let (lx, rhs) = match latest.get(&x) {
+                Some(v) => v.clone(),
+                None => break,
+            };
+            match latest.get(&rhs) {
+                Some((ly, _)) => {
+                    if *ly > lx {
+                        return true;
+                    }
+                    x = rhs;
+                }
+                None => break,
+            }
+        }
+    }
+    false
 }
 
 fn same(n: &Number, r: &Reading) -> bool {
@@ -172,7 +247,7 @@ impl Space for C07 {
         Meta {
             id: "C07",
             level: "exploration",
-            rule: "every string prefix+name[+s] over all prefixes (and none) x all unit and base-unit names of the bundled database, with and without the currency overlay, looked up through Context::lookup on two independent loads and compared with an independent resolver over the registry dump (exact, else any valid prefix split, else plural); lookup(canonicalize(n)) must equal lookup(n). Plus all 2^10 sub-databases of a pool of colliding definitions x 100 concatenated query names. Non-trivial = the name has at least one reading or rink resolves it; distinct by (config, name)".into(),
+            rule: "every string prefix+name[+s] over all prefixes (and none) x all unit and base-unit names of the bundled database, with and without the currency overlay, looked up through Context::lookup on two independent loads and compared with an independent resolver over the registry dump (exact, else any valid prefix split, else plural); lookup(canonicalize(n)) must equal lookup(n). Plus all 2^10 sub-databases of a pool of colliding definitions x 100 concatenated query names; plus load histories on one Context: a 10-line base database followed by every subset of 7 redefinitions (aliases re-pointed, values changed, prefixes changed) as a second file, and every ordered pair of them as a second and third file, x 64 names each. Non-trivial = the name has at least one reading or rink resolves it; distinct by (config, name)".into(),
             assumptions: vec![
                 "the statement does not rank competing prefix splits: any valid split is accepted, determinism pins the choice".into(),
                 "the registry dump gives each exact name's value".into(),
@@ -194,9 +269,11 @@ impl Space for C07 {
                 self.names[d[2] as usize],
                 if d[3] == 1 { "s" } else { "" }
             )
-        } else {
+        } else if f == 1 {
             let lines: Vec<&str> = (0..POOL.len()).filter(|i| d[0] >> i & 1 == 1).map(|i| POOL[i]).collect();
             format!("sub-database {{{}}}", lines.join("; "))
+        } else {
+            format!("base database, then {}", Self::loads(f, d[0]).iter().map(|l| format!("load {{{}}}", l.trim().replace('\n', "; "))).collect::<Vec<_>>().join(", then "))
         }
     }
     fn sample_indices(&self) -> Vec<u64> {
@@ -240,6 +317,41 @@ impl Space for C07 {
                 out = out.viol(s, format!("[{}] {}", if d[0] == 0 { "bundled" } else { "bundled+currency" }, dt));
             }
             out
+        } else if f >= 2 {
+            let loads = Self::loads(f, d[0]);
+            let load = || {
+                let mut c = Context::new();
+                c.use_humanize = false;
+                let _ = c.load_definitions(BASE2);
+                for l in &loads {
+                    let _ = c.load_definitions(l);
+                }
+                c
+            };
+            let a = load();
+            let dump = regdump::dump(&a);
+            let l = Loaded { a, b: load(), dump };
+            let tag = format!("base; {}", loads.iter().map(|l| l.trim().replace('\n', "; ")).collect::<Vec<_>>().join(" | "));
+            let mut out = CaseOut::ok("reloaded database").key(hash64(&tag));
+            let mut n = 0;
+            for p in QP2 {
+                for u in QU2 {
+                    for s in ["", "s"] {
+                        let name = format!("{}{}{}", p, u, s);
+                        let (_o, bad) = judge_name(&l, &name);
+                        n += 1;
+                        for (sg, dt) in bad {
+                            let sg = if sg.starts_with("canonical name denotes another value") && stale_alias(&loads, &name) {
+                                "canonical name denotes another value (alias evaluated in an earlier load than the redefinition of its target)".to_string()
+                            } else {
+                                sg
+                            };
+                            out = out.viol(sg, format!("[{}] {}", tag, dt));
+                        }
+                    }
+                }
+            }
+            out.count("names_looked_up", n)
         } else {
             let mut text = String::new();
             for e in EXTRA {
